@@ -59,6 +59,184 @@ Proof.
     + rewrite (ltb_prefix _ _ _ H2). apply orb_true_r.
 Qed.
 
+
+(* ------------------------------------------------------------------ order on byte strings *)
+Lemma str_cmp_refl : forall a, str_cmp a a = Eq.
+Proof. induction a as [|x a IH]; simpl; auto. rewrite N.compare_refl. exact IH. Qed.
+
+Lemma str_cmp_eq : forall a b, str_cmp a b = Eq -> a = b.
+Proof.
+  induction a as [|x a IH]; destruct b as [|y b]; simpl; intros H; try discriminate; auto.
+  destruct (N.compare x y) eqn:C; try discriminate. apply N.compare_eq in C. subst. f_equal. auto.
+Qed.
+
+Lemma str_cmp_antisym : forall a b, str_cmp b a = CompOpp (str_cmp a b).
+Proof.
+  induction a as [|x a IH]; destruct b as [|y b]; simpl; auto.
+  rewrite (N.compare_antisym x y). destruct (N.compare x y); simpl; auto.
+Qed.
+
+Lemma str_cmp_lt_trans : forall a b c, str_cmp a b = Lt -> str_cmp b c = Lt -> str_cmp a c = Lt.
+Proof.
+  induction a as [|x a IH]; destruct b as [|y b]; destruct c as [|z c]; simpl; intros H1 H2; try discriminate; auto.
+  destruct (N.compare x y) eqn:C1; destruct (N.compare y z) eqn:C2; try discriminate.
+  - apply N.compare_eq in C1. apply N.compare_eq in C2. subst. rewrite N.compare_refl. eapply IH; eauto.
+  - apply N.compare_eq in C1. subst. rewrite C2. reflexivity.
+  - apply N.compare_eq in C2. subst. rewrite C1. reflexivity.
+  - apply N.compare_lt_iff in C1. apply N.compare_lt_iff in C2.
+    assert (Hl : (x < z)%N) by (eapply N.lt_trans; eauto). apply N.compare_lt_iff in Hl. rewrite Hl. reflexivity.
+Qed.
+
+Definition str_lt (a b : str) : Prop := str_ltb a b = true.
+Lemma str_lt_cmp : forall a b, str_lt a b <-> str_cmp a b = Lt.
+Proof. intros a b. unfold str_lt, str_ltb. destruct (str_cmp a b); split; intros H; try discriminate; auto. Qed.
+Lemma str_lt_trans : forall a b c, str_lt a b -> str_lt b c -> str_lt a c.
+Proof. intros a b c H1 H2. apply str_lt_cmp. eapply str_cmp_lt_trans; apply str_lt_cmp; eauto. Qed.
+Lemma str_lt_irrefl : forall a, ~ str_lt a a.
+Proof. intros a H. apply str_lt_cmp in H. rewrite str_cmp_refl in H. discriminate. Qed.
+Lemma str_ltb_false_leb : forall a b, str_ltb a b = false -> str_leb b a = true.
+Proof.
+  intros a b H. unfold str_ltb in H. unfold str_leb. rewrite (str_cmp_antisym a b).
+  destruct (str_cmp a b); simpl; auto; discriminate.
+Qed.
+Lemma str_lt_neq_eqb : forall a b, str_lt a b -> str_eqb b a = false.
+Proof.
+  intros a b H. destruct (str_eqb b a) eqn:E; auto. apply str_eqb_eq in E. subst. exfalso. eapply str_lt_irrefl; eauto.
+Qed.
+Lemma str_lt_asym_ltb : forall a b, str_lt a b -> str_ltb b a = false.
+Proof.
+  intros a b H. apply str_lt_cmp in H. unfold str_ltb. rewrite (str_cmp_antisym a b), H. reflexivity.
+Qed.
+
+(* ------------------------------------------------------------------ sorted rows: what the line-protocol parser delivers *)
+From Coq Require Import Sorting.Sorted.
+Definition keys_sorted (l : list str) : Prop := Sorted str_lt l.
+
+Lemma keys_sorted_strong : forall l, keys_sorted l -> StronglySorted str_lt l.
+Proof. intros l H. apply Sorted_StronglySorted; auto. intros a b c. apply str_lt_trans. Qed.
+
+Lemma sorted_nodup : forall l, keys_sorted l -> NoDup l.
+Proof.
+  intros l H. apply keys_sorted_strong in H. induction H as [|a l Hs IH Hf]; constructor; auto.
+  intros Hin. rewrite Forall_forall in Hf. eapply str_lt_irrefl. apply Hf. exact Hin.
+Qed.
+
+Lemma sorted_no_adj_dup : forall tags, keys_sorted (map fst tags) -> has_adj_dup tags = false.
+Proof.
+  induction tags as [|a tags IH]; simpl; intros H; auto. destruct tags as [|b tags']; auto.
+  simpl in H. inversion H as [|? ? Hs Hh]; subst. inversion Hh; subst.
+  rewrite (IH Hs). rewrite orb_false_r. destruct (str_eqb (fst a) (fst b)) eqn:E; auto.
+  apply str_eqb_eq in E. rewrite E in H1. exfalso. eapply str_lt_irrefl; eauto.
+Qed.
+
+(* every shard-key tag is among the row's tags => the sorted merge finds them all *)
+Lemma sel_keys_complete : forall tags sk,
+  keys_sorted (map fst tags) -> keys_sorted sk -> (forall k, In k sk -> In k (map fst tags)) ->
+  snd (sel_keys sk tags) = true.
+Proof.
+  induction tags as [|[tk tv] tags IH]; intros sk Ht Hs Hin.
+  - destruct sk as [|k sk]; simpl; auto. exfalso. apply (Hin k). left; reflexivity.
+  - destruct sk as [|k sk']; [reflexivity|]. simpl.
+    pose proof (keys_sorted_strong _ Ht) as Hst. simpl in Hst. inversion Hst as [|? ? Hst' Hf]; subst.
+    rewrite Forall_forall in Hf.
+    pose proof (keys_sorted_strong _ Hs) as Hss. inversion Hss as [|? ? Hss' Hfs]; subst. rewrite Forall_forall in Hfs.
+    assert (Ht' : keys_sorted (map fst tags)) by (simpl in Ht; inversion Ht; auto).
+    assert (Hs' : keys_sorted sk') by (inversion Hs; auto).
+    destruct (str_ltb k tk) eqn:El.
+    + exfalso. destruct (Hin k (or_introl eq_refl)) as [He|Hi].
+      * simpl in He. subst. eapply str_lt_irrefl; eauto.
+      * apply (str_lt_irrefl k). eapply str_lt_trans; [exact El|]. apply Hf. exact Hi.
+    + destruct (str_eqb k tk) eqn:Ee.
+      * apply str_eqb_eq in Ee. subst tk. simpl. apply IH; auto.
+        intros k' Hk'. destruct (Hin k' (or_intror Hk')) as [He|Hi]; auto.
+        simpl in He. subst k'. exfalso. eapply str_lt_irrefl. apply Hfs. exact Hk'.
+      * apply IH; auto. intros k' Hk'.
+        destruct (Hin k' Hk') as [He|Hi]; auto. simpl in He. subst k'. exfalso.
+        (* tk is in sk but k is the least element of sk and k > tk *)
+        destruct Hk' as [Hk'|Hk'].
+        -- subst. rewrite str_eqb_refl in Ee. discriminate.
+        -- assert (Hlt : str_lt k tk) by (apply Hfs; auto). unfold str_lt in Hlt. rewrite Hlt in El. discriminate.
+Qed.
+
+
+Lemma find_group_spec0 : forall gs t g, find_group gs t = Some g -> g_writable g t = true.
+Proof. unfold find_group. intros gs t g H. apply find_some in H as [_ H]. exact H. Qed.
+
+Lemma span_covers0 : forall t d, (0 < d)%Z -> (t <= max_nano)%Z -> (fst (span_of t d) <= t < snd (span_of t d))%Z.
+Proof.
+  intros t d Hd Ht. unfold span_of, trunc. cbn [fst snd]. destruct (d <=? 0)%Z eqn:E; [apply Z.leb_le in E; lia|].
+  pose proof (Z.mod_pos_bound (t + epoch_shift) d Hd) as Hm.
+  match goal with |- context [if ?b then _ else _] => destruct b eqn:E2 end; lia.
+Qed.
+
+(* ------------------------------------------------------------------ every accepted point has a route *)
+(* key ranges of a range-sharded group: first Min empty, last Max empty, adjacent shards share the bound *)
+Fixpoint covers_from (lo : str) (shards : list shard) : Prop :=
+  match shards with
+  | [] => False
+  | s :: rest => s_min s = lo /\ match rest with
+                                | [] => s_max s = []
+                                | _ => s_max s <> [] /\ covers_from (s_max s) rest
+                                end
+  end.
+Definition wf_route (c : cfg) (g : group) : Prop :=
+  match c_typ c with
+  | Hash => eff_idx c g <> [] /\ Forall (fun i => (i < length (g_shards g))%nat) (eff_idx c g)
+  | Range => covers_from [] (g_shards g)
+  end.
+
+Lemma find_exists : forall {A} (f : A -> bool) l, (exists x, In x l /\ f x = true) -> exists y, find f l = Some y.
+Proof.
+  induction l as [|a l IH]; intros [x [Hin Hf]]; [contradiction|]. simpl. destruct (f a) eqn:E; eauto.
+  destruct Hin as [->|Hin]; [congruence|]. apply IH. eauto.
+Qed.
+
+Lemma covers_contains : forall shards lo key, covers_from lo shards -> str_leb lo key = true ->
+  exists s, In s shards /\ contain s key = true.
+Proof.
+  induction shards as [|s rest IH]; intros lo key Hc Hl; [contradiction|]. destruct Hc as [Hmin Hrest].
+  destruct rest as [|s' rest'].
+  - exists s. split; [left; reflexivity|]. unfold contain. rewrite Hmin, Hl, Hrest. reflexivity.
+  - destruct Hrest as [Hne Hcov]. destruct (str_ltb key (s_max s)) eqn:E.
+    + exists s. split; [left; reflexivity|]. unfold contain. rewrite Hmin, Hl, E. apply orb_true_r.
+    + destruct (IH (s_max s) key Hcov (str_ltb_false_leb _ _ E)) as [x [Hx Hcx]]. exists x. split; [right; exact Hx|exact Hcx].
+Qed.
+
+Lemma shard_for_total : forall c h g, eff_idx c g <> [] ->
+  Forall (fun i => (i < length (g_shards g))%nat) (eff_idx c g) -> exists s, shard_for c h g = Some s.
+Proof.
+  intros c h g Hne Hf. unfold shard_for. destruct (eff_idx c g) as [|i0 idx] eqn:E; [congruence|].
+  set (n := length (i0 :: idx)).
+  assert (Hlt : (N.to_nat (h mod N.of_nat n) < n)%nat).
+  { assert (Hn : N.of_nat n <> 0%N) by (unfold n; simpl; lia).
+    pose proof (N.mod_lt h (N.of_nat n) Hn). lia. }
+  destruct (nth_error (i0 :: idx) (N.to_nat (h mod N.of_nat n))) as [i|] eqn:En.
+  - rewrite Forall_forall in Hf. assert (Hi : (i < length (g_shards g))%nat) by (apply Hf; eapply nth_error_In; eauto).
+    apply nth_error_Some in Hi. destruct (nth_error (g_shards g) i); [eauto|congruence].
+  - apply nth_error_None in En. fold n in En. lia.
+Qed.
+
+Lemma ensure_group_finds : forall c t gid shards alive, (0 < c_dur c)%Z -> (t <= max_nano)%Z ->
+  exists g, find_group (c_groups (ensure_group c t gid shards alive)) t = Some g /\ g_writable g t = true.
+Proof.
+  intros c t gid shards alive Hd Ht. unfold ensure_group.
+  destruct (find_group (c_groups c) t) as [g|] eqn:Ef.
+  - exists g. split; auto. apply find_group_spec0 in Ef. exact Ef.
+  - simpl. exists (new_group gid t (c_dur c) shards alive). unfold find_group. rewrite rev_app_distr. simpl.
+    assert (Hw : g_writable (new_group gid t (c_dur c) shards alive) t = true).
+    { unfold g_writable, g_contains, new_group. cbn [g_start g_end g_deleted g_trunc]. pose proof (span_covers0 t (c_dur c) Hd Ht) as [H1 H2].
+      apply Z.leb_le in H1. apply Z.ltb_lt in H2. rewrite H1, H2. reflexivity. }
+    rewrite Hw. auto.
+Qed.
+
+Lemma wkey_total : forall c p,
+  keys_sorted (map fst (p_tags p)) -> keys_sorted (c_sk c) -> (forall k, In k (c_sk c) -> In k (map fst (p_tags p))) ->
+  exists ps, wkey c p = Some ps.
+Proof.
+  intros c p Ht Hs Hin. unfold wkey. rewrite (sorted_no_adj_dup _ Ht).
+  destruct (c_sk c) as [|k sk] eqn:E; [eauto|]. rewrite (sel_keys_complete _ (k :: sk) Ht Hs Hin). eauto.
+Qed.
+
 (* ------------------------------------------------------------------ tags *)
 Lemma tag_val_in : forall tags k v, NoDup (map fst tags) -> In (k, v) tags -> tag_val tags k = v.
 Proof.
@@ -302,6 +480,60 @@ Proof.
   - assert (Hr : route hash c p = Some (g, s)) by exact H.
     pose proof (route_unique_covering_proof _ _ _ _ Hr) as [[_ [Hc [_ Hs]]] _]. auto.
 Qed.
+
+Theorem route_total_proof : forall c p gid shards alive,
+  (0 < c_dur c)%Z -> (p_time p <= max_nano)%Z ->
+  keys_sorted (map fst (p_tags p)) -> keys_sorted (c_sk c) -> (forall k, In k (c_sk c) -> In k (map fst (p_tags p))) ->
+  (forall g, In g (c_groups (ensure_group c (p_time p) gid shards alive)) -> wf_route c g) ->
+  exists g s, route hash (ensure_group c (p_time p) gid shards alive) p = Some (g, s).
+Proof.
+  intros c p gid shards alive Hd Ht Hst Hss Hin Hwf.
+  destruct (ensure_group_finds c (p_time p) gid shards alive Hd Ht) as [g [Hf Hw]].
+  set (c' := ensure_group c (p_time p) gid shards alive) in *.
+  assert (Hsk : c_sk c' = c_sk c) by (unfold c', ensure_group; destruct (find_group (c_groups c) (p_time p)); reflexivity).
+  assert (Hty : c_typ c' = c_typ c) by (unfold c', ensure_group; destruct (find_group (c_groups c) (p_time p)); reflexivity).
+  assert (Hix : forall g0, eff_idx c' g0 = eff_idx c g0).
+  { intros g0. unfold eff_idx, c', ensure_group. destruct (find_group (c_groups c) (p_time p)); reflexivity. }
+  assert (Hmst : c_mst c' = c_mst c) by (unfold c', ensure_group; destruct (find_group (c_groups c) (p_time p)); reflexivity).
+  assert (Hg : In g (c_groups c')). { pose proof (find_group_spec _ _ _ Hf) as [H _]. exact H. }
+  specialize (Hwf g Hg). unfold wf_route in Hwf.
+  destruct (wkey_total c' p Hst) as [ps Hps]; try (rewrite Hsk; auto).
+  unfold route. rewrite Hf. unfold route_in. rewrite Hps, Hty. exists g.
+  destruct (c_typ c).
+  - destruct Hwf as [Hne Hfa]. destruct (shard_for_total c (hash (hash_arg c' ps)) g Hne Hfa) as [s Hs].
+    exists s. unfold shard_for in *. rewrite Hix. rewrite Hs. reflexivity.
+  - destruct (covers_contains _ [] (c_mst c' ++ key_suffix ps) Hwf) as [s [Hs Hc]]; [destruct (c_mst c' ++ key_suffix ps); reflexivity|].
+    destruct (find_exists (fun s0 => contain s0 (c_mst c' ++ key_suffix ps)) (g_shards g)) as [y Hy]; [eauto|].
+    exists y. unfold dest_shard. rewrite Hy. reflexivity.
+Qed.
+
+(* the key built on the read side from any tag set the row satisfies (duplicates allowed: the merge takes the first value
+   per key) is a prefix of the key built on the write side, and equal to it when every shard-key tag is constrained;
+   for every shard-key definition *)
+Theorem sel_keys_agree_proof : forall sk tags ts,
+  NoDup (map fst tags) -> snd (sel_keys sk tags) = true ->
+  (forall k v, In (k, v) ts -> tag_val tags k = v) ->
+  exists m, fst (sel_keys sk (sort_tags ts)) = firstn m (fst (sel_keys sk tags)) /\
+            (snd (sel_keys sk (sort_tags ts)) = true -> fst (sel_keys sk (sort_tags ts)) = fst (sel_keys sk tags)).
+Proof.
+  intros sk tags ts Hnd Hok Hsat.
+  destruct (sel_keys_spec tags sk) as [mp [Hp1 [Hp2 Hp3]]]. specialize (Hp3 Hok).
+  destruct (sel_keys_spec (sort_tags ts) sk) as [mt [Ht1 [Ht2 Ht3]]].
+  set (ps := fst (sel_keys sk tags)) in *. set (qs := fst (sel_keys sk (sort_tags ts))) in *.
+  assert (Hps : forall x, In x ps -> snd x = tag_val tags (fst x)).
+  { intros [k x] Hx. simpl. symmetry. apply tag_val_in; auto. }
+  assert (Hqs : forall x, In x qs -> snd x = tag_val tags (fst x)).
+  { intros [k x] Hx. simpl. symmetry. apply Hsat. apply sort_tags_in. apply Ht2. exact Hx. }
+  exists mt. split.
+  - apply (pairs_determined (tag_val tags)); auto.
+    + rewrite Ht1, <- firstn_map, Hp3. reflexivity.
+    + intros x Hx. apply Hps. eapply firstn_In; eauto.
+  - intros Hc. apply (pairs_determined (tag_val tags)); auto. rewrite (Ht3 Hc), Hp3. reflexivity.
+Qed.
+
+Lemma contradictory_alternative_unsat : forall tags ts k v1 v2,
+  In (k, v1) ts -> In (k, v2) ts -> v1 <> v2 -> ~ (forall k' v, In (k', v) ts -> tag_val tags k' = v).
+Proof. intros tags ts k v1 v2 H1 H2 Hne Hs. apply Hne. rewrite <- (Hs k v1 H1), <- (Hs k v2 H2). reflexivity. Qed.
 
 (* ------------------------------------------------------------------ pruning is sound *)
 Lemma target_group_sound : forall v c g cond p s,
